@@ -43,7 +43,10 @@ class D(RenderDriver):
         if eng:
             return eng
         if not meta:
-            return None
+            try:
+                meta = {"root": gd.from_xml(doc)}  # replay / minimisation: rebuild the tree from the text
+            except Exception:
+                return None
         # known mechanism: the clip of a <use> is moved onto the instantiated target and then
         # transformed by the target's own transform.  Intervention: with those uses replaced by the
         # group SVG's use semantics generate, the same document converts correctly.
@@ -56,10 +59,24 @@ class D(RenderDriver):
         if alt is None:
             return None
         st, out2 = conv.convert(gd.to_xml(alt))
-        if st != "ok":
+        if st == "ok":
+            try:
+                src, dst = RR.build(doc), RR.build(out2)
+                pts = conv.sample_points(src, _random.Random(3), eps=0.4) + [mismatch[0]]
+                r = conv.compare_stacks(src, dst, pts, 0.4)
+                if r["mismatch"] is None and r["kept"] >= 30:
+                    return "use-clip-moved-onto-transformed-target"
+            except Exception:
+                pass
+            return None
+        # the intervened document does not convert (the engine refuses one of its operations): fall back
+        # to simulating the mechanism in the reference - the real output must render exactly like the
+        # source in which the clip sits on the transformed copy of the target
+        sim = gd.simulate_clip_moved_onto_target(meta["root"])
+        if sim is None:
             return None
         try:
-            src, dst = RR.build(doc), RR.build(out2)
+            src, dst = RR.build(gd.to_xml(sim)), RR.build(out)
             pts = conv.sample_points(src, _random.Random(3), eps=0.4) + [mismatch[0]]
             r = conv.compare_stacks(src, dst, pts, 0.4)
             if r["mismatch"] is None and r["kept"] >= 30:
